@@ -463,8 +463,12 @@ func c08SchedScenario(kind string) *mc.Scenario {
 			reads = append(reads, r)
 			ths = append(ths, vrt.Go(func() {
 				switch kind {
-				case "list":
-					l, err := w.b.List(bg, &proto.RangeRequest{Key: []byte("/r/"), End: []byte("/r0"), Revision: r.rev})
+				case "list", "limited-list":
+					req := &proto.RangeRequest{Key: []byte("/r/"), End: []byte("/r0"), Revision: r.rev}
+					if kind == "limited-list" {
+						req.Limit = 5 // above the number of keys: the limited path, the whole snapshot
+					}
+					l, err := w.b.List(bg, req)
 					if err != nil {
 						r.err = err.Error()
 					} else {
@@ -529,18 +533,20 @@ func init() {
 		ID:    "C08",
 		Level: "model_checking",
 		Rule: "explicit-state BFS over sequences of writes on 2 keys and compaction requests (revision 0, every revision up to the depth, above the current revision; hence increasing, repeated, decreasing orders), de-duplicated on model state + rank-normalised storage; " +
-			"after every step List, limited List and streamed range are issued at every revision from the first to the committed one: refused below the highest accepted compaction revision, served at or above it; the stored compaction record must equal that floor; the same reads are also issued through a second, long-lived node over the same store (a follower that adopted the leader's read revision and served an ordinary read after every step); plus every schedule without preemptions (thorough: one preemption) of a compaction at R against range reads at revisions below R (two Lists; one streamed range): a List ends with an error or with the whole snapshot at its revision, a stream without error holds the whole snapshot, and afterwards the floor is in force",
+			"after every step List, limited List and streamed range are issued at every revision from the first to the committed one: refused below the highest accepted compaction revision, served at or above it; the stored compaction record must equal that floor; the same reads are also issued through a second, long-lived node over the same store (a follower that adopted the leader's read revision and served an ordinary read after every step); plus every schedule without preemptions (one preemption for the limited List and in thorough) of a compaction at R against range reads at revisions below R (two Lists; one streamed range; two limited Lists): a List ends with an error or with the whole snapshot at its revision, a stream without error holds the whole snapshot, and afterwards the floor is in force",
 		Assume: []string{"the history search uses a single client and the default schedule, quiescence after every request; reads racing a compaction are covered by the schedule scenarios", "in-memory engine (thorough: badger and tikv-mock at depth 3)"},
 		Exec:   func(j *mc.Job) *mc.JobResult { return mc.SeqExec(j, c08Run(j.Tier)) },
 		Scenarios: func(tier string) []*mc.Scenario {
-			return []*mc.Scenario{c08SchedScenario("list"), c08SchedScenario("stream")}
+			// (a count is always taken at the latest revision: it cannot be below a floor)
+			return []*mc.Scenario{c08SchedScenario("list"), c08SchedScenario("stream"), c08SchedScenario("limited-list")}
 		},
 		Drive: func(c *mc.Ctx) {
 			full := c.Deadline
 			c.Deadline = c.Start.Add(full.Sub(c.Start) / 3)
 			mc.DriveSchedules(c, func(i int, sc *mc.Scenario) mc.SchedPlan {
 				p := mc.SchedPlan{Class: "compaction-vs-reads-below-the-new-floor", Bounds: []int{0}, Shard: true}
-				if c.Tier == "thorough" {
+				if c.Tier == "thorough" || strings.Contains(sc.Name, "limited-list") {
+					// (a limited List scans in the caller's own thread: losing the race takes one preemption)
 					p.Bounds = []int{0, 1}
 				}
 				return p
